@@ -1,12 +1,92 @@
 (* C04 — EIP-712 digest equals the specification for every type graph and message.
-   Statements only; proofs live in Eip712/Proofs*.v. *)
-From Coq Require Import List NArith ZArith Bool Arith Lia.
+   Statements only; proofs live in Eip712/Proofs*.v.
+
+   Vocabulary (Eip712/Repr.v): a Go-level document [td : typed_data] (type strings, decoded JSON
+   values — what EncodeTypedDataV4 receives) [represents] an EIP-712 document [d : Spec.doc] (parsed
+   member types, typed values) when its type map holds the canonical rendering of d's struct types
+   and its domain / message values read, member by member through the documented coercions, as d's
+   typed values.  [wf_doc] is well-formedness per the EIP (declared struct names, valid atomic
+   widths, values of their types); [types_dims_fit] says fixed array dimensions fit Go's int.
+   The hash function H is arbitrary in every statement (keccak256 is one instance). *)
+From Coq Require Import String.
+From Coq Require Import List NArith ZArith Bool Arith Lia Permutation.
 From Coq Require Import Init.Byte.
 From FFS Require Import Base.Res Base.Bytes Abi.Spec.
-From FFS Require Import Eip712.Util Eip712.Input Eip712.Numeric Eip712.Coerce Eip712.Model Eip712.ProofsSign.
+From FFS Require Import Eip712.Util Eip712.Input Eip712.Numeric Eip712.Coerce Eip712.Model Eip712.Spec Eip712.Repr.
+From FFS Require Import Eip712.Parse Eip712.ProofsSign Eip712.ProofsMain Eip712.ProofsInvariance Eip712.ProofsParse Eip712.ProofsAbi.
 Import ListNotations.
 
-(* Signature clause (shape): whenever SignTypedDataV4 succeeds, the hash it reports is the document's
+(* 1. The digest is the EIP-712 digest: keccak256(0x19 0x01 || domainSeparator || hashStruct(message)),
+      for type graphs of any size (shared, mutually recursive and self-recursive references), arrays of
+      any nesting (fixed and dynamic), absent struct references, any domain type including none, and
+      domain-only documents. *)
+Theorem C04_digest_is_spec :
+  forall (H : bytes -> bytes) (big_other : bytes -> option Z) (td : typed_data) (d : doc),
+    represents big_other td d -> wf_doc d -> types_dims_fit (d_types d) ->
+    EncodeTypedDataV4 H big_other (Some td) = Ok (digest H d).
+Proof. exact digest_is_spec. Qed.
+Print Assumptions C04_digest_is_spec.
+
+(* 1'. The same statement in functional form: [parse_doc] (Eip712/Parse.v, executable) reads the Go-level
+      document as an EIP-712 document, [well_formed_b] is the decidable well-formedness check. *)
+Theorem C04_digest_is_spec_parse :
+  forall (H : bytes -> bytes) (big_other : bytes -> option Z) (td : typed_data) (d : doc),
+    parse_doc big_other td = Some d -> well_formed_b d = true ->
+    EncodeTypedDataV4 H big_other (Some td) = Ok (digest H d).
+Proof. exact digest_is_spec_parse. Qed.
+Print Assumptions C04_digest_is_spec_parse.
+
+(* 2. Key order: the type set in any order of its entries, domain and message with the keys of every
+      object permuted at any depth — same digest. *)
+Theorem C04_order_independent :
+  forall (H : bytes -> bytes) (big_other : bytes -> option Z) (td td' : typed_data) (d : doc),
+    represents big_other td d -> wf_doc d -> types_dims_fit (d_types d) ->
+    NoDup (keys (types_of td)) -> Permutation (types_of td) (types_of td') ->
+    td_primary td' = td_primary td ->
+    gperm (domain_of td) (domain_of td') -> gperm (message_of td) (message_of td') ->
+    EncodeTypedDataV4 H big_other (Some td') = Ok (digest H d) /\
+    EncodeTypedDataV4 H big_other (Some td') = EncodeTypedDataV4 H big_other (Some td).
+Proof. exact order_independent. Qed.
+Print Assumptions C04_order_independent.
+
+(* the order in which `range` delivers the keys of the dependency map inside TypeSet.Encode is
+   irrelevant as well: the keys are sorted *)
+Theorem C04_map_iteration_order_irrelevant :
+  forall (ts : typeset) (primary : bytes) (range_keys : list bytes),
+    Permutation range_keys (map fst ts) ->
+    TypeSet_Encode_keys range_keys ts primary = TypeSet_Encode ts primary.
+Proof.
+  intros ts primary rk Hp. unfold TypeSet_Encode, TypeSet_Encode_keys.
+  rewrite (ProofsUtil.sort_perm_eq _ _ (ProofsUtil.filter_perm _ _ _ Hp)). reflexivity.
+Qed.
+Print Assumptions C04_map_iteration_order_irrelevant.
+
+(* 3. Unreferenced type definitions: any further entries of the type set — whatever they contain —
+      under names that are neither struct types of the document nor spellings of (valid) atomic types. *)
+Theorem C04_unreferenced_types_irrelevant :
+  forall (H : bytes -> bytes) (big_other : bytes -> option Z) (td : typed_data) (d : doc) (extra : typeset),
+    represents big_other td d -> wf_doc d -> types_dims_fit (d_types d) ->
+    (forall n, In n (keys extra) -> ~ In n (keys (d_types d)) /\ forall a, wf_atomic a = true -> n <> atomic_name a) ->
+    let td' := mkTD (Some (types_of td ++ extra)) (td_primary td) (td_domain td) (td_message td) in
+    EncodeTypedDataV4 H big_other (Some td') = Ok (digest H d) /\
+    EncodeTypedDataV4 H big_other (Some td') = EncodeTypedDataV4 H big_other (Some td).
+Proof. exact unreferenced_types_irrelevant. Qed.
+Print Assumptions C04_unreferenced_types_irrelevant.
+
+(* 4. Extra fields: domain and message values that agree (recursively) on the members of their
+      struct types and carry any other keys — same digest. *)
+Theorem C04_extra_fields_irrelevant :
+  forall (H : bytes -> bytes) (big_other : bytes -> option Z) (td td' : typed_data) (d : doc),
+    represents big_other td d -> wf_doc d -> types_dims_fit (d_types d) ->
+    td_types td' = td_types td -> td_primary td' = td_primary td ->
+    same_members (d_types d) (Struct domain_name) (domain_of td) (domain_of td') ->
+    same_members (d_types d) (Struct (d_primary d)) (message_of td) (message_of td') ->
+    EncodeTypedDataV4 H big_other (Some td') = Ok (digest H d) /\
+    EncodeTypedDataV4 H big_other (Some td') = EncodeTypedDataV4 H big_other (Some td).
+Proof. exact extra_fields_irrelevant. Qed.
+Print Assumptions C04_extra_fields_irrelevant.
+
+(* 5. Signature clause (shape): whenever SignTypedDataV4 succeeds, the hash it reports is the document's
    EIP-712 digest, the signer was asked to sign exactly that digest (no second hash), R and S are the
    32-byte big-endian numbers, and signatureRSV is the 65 bytes R || S || byte(V); with a signer that
    answers V in {27,28} the last byte is 27 or 28.  That the signature verifies for the digest against
@@ -26,3 +106,156 @@ Theorem C04_signature :
      nth 64 (r_signatureRSV res) x00 = n2b (Z.to_N (r_V res)) /\ (r_V res = 27%Z \/ r_V res = 28%Z)).
 Proof. intros. split; [eapply sign_shape; eassumption | intros; eapply sign_v; eassumption]. Qed.
 Print Assumptions C04_signature.
+
+(* 6. ABI-derived type set.  [describes re sts tc (Struct primary)] (Eip712/ProofsAbi.v): the component
+      tree tc is the Solidity ABI form of the struct — every tuple carries an internalType from which
+      the regular expression [re] extracts the struct's name and has one child per member, named like
+      it; elementary components spell the atomic types; arrays match.  Then ABItoTypedDataV4 succeeds
+      with that primary type, and hashStruct of any value of the struct under the derived type set
+      equals hashStruct under any hand-written type set [hand] for the same structs (both are the
+      spec's hashStruct).  [sts] is required to hold only what the struct reaches. *)
+Theorem C04_abi_typeset_equiv :
+  forall (H : bytes -> bytes) (big_other : bytes -> option Z) (re : bytes -> option bytes)
+         (sts : types) (tc : atc) (primary : bytes) (hand : typeset) (g : gval) (v : value),
+    wf_types sts -> types_dims_fit sts ->
+    describes re sts tc (Struct primary) ->
+    (forall n, In n (keys sts) -> reachable sts primary n) ->
+    repr_types hand sts ->
+    repr big_other sts (Struct primary) g v -> well_typed sts (Struct primary) v = true ->
+    exists ts, ABItoTypedDataV4 re tc = Ok (primary, ts) /\
+      HashStruct H big_other primary g ts = Ok (Spec.hashStruct H sts primary v) /\
+      HashStruct H big_other primary g hand = Ok (Spec.hashStruct H sts primary v).
+Proof. exact abi_typeset_equiv. Qed.
+Print Assumptions C04_abi_typeset_equiv.
+
+(* ---------- non-vacuity ---------- *)
+(* A document with a self-recursive type through a dynamic array, a shared reference, a fixed array of
+   structs holding an absent element, an absent (recursive) struct reference, a domain with two of the
+   standard fields, an extra message field and an unreferenced (ill-formed) extra type: it parses, is
+   well formed, and therefore — for every hash function — hashes to the EIP-712 digest. *)
+Definition ex_member (n t : bytes) : option member := Some (mkMember n t).
+Definition ex_td : typed_data :=
+  mkTD (Some [ (bs "Mail", Some [ex_member (bs "from") (bs "Person"); ex_member (bs "to") (bs "Person[2]");
+                                  ex_member (bs "contents") (bs "string"); ex_member (bs "reply") (bs "Mail");
+                                  ex_member (bs "ids") (bs "uint16[][1]") ]);
+               (bs "EIP712Domain", Some [ex_member (bs "name") (bs "string"); ex_member (bs "chainId") (bs "uint256")]);
+               (bs "Person", Some [ex_member (bs "name") (bs "string"); ex_member (bs "wallet") (bs "address");
+                                    ex_member (bs "friends") (bs "Person[]")]) ])
+       (bs "Mail")
+       (Some [(bs "chainId", GNumber (bs "1")); (bs "name", GString (bs "Ether Mail"))])
+       (Some [(bs "contents", GString (bs "Hello, Bob!"));
+              (bs "ids", GSlice [GSlice [GNumber (bs "65535"); GString (bs "0x10")]]);
+              (bs "to", GSlice [GNil; GMap [(bs "name", GString (bs "Bob")); (bs "friends", GSlice []);
+                                            (bs "wallet", GString (bs "0xbBbBBBBbbBBBbbbBbbBbbbbBBbBbbbbBbBbbBBbB"))]]);
+              (bs "not a member", GNumber (bs "7"));
+              (bs "from", GMap [(bs "wallet", GString (bs "0xCD2a3d9F938E13CD947Ec05AbC7FE734Df8DD826"));
+                                (bs "friends", GSlice [GMap [(bs "name", GString (bs "Eve")); (bs "friends", GSlice []);
+                                                             (bs "wallet", GString (bs "0x01"))]]);
+                                (bs "name", GString (bs "Cow"))])]).
+
+Example C04_nonvacuous :
+  forall (H : bytes -> bytes) (big_other : bytes -> option Z),
+  exists d, parse_doc big_other ex_td = Some d /\ well_formed_b d = true /\
+            EncodeTypedDataV4 H big_other (Some ex_td) = Ok (digest H d).
+Proof.
+  intros H big_other.
+  assert (Hp : exists d, parse_doc big_other ex_td = Some d /\ well_formed_b d = true).
+  { eexists. split; [vm_compute; reflexivity | vm_compute; reflexivity]. }
+  destruct Hp as (d & Hp & Hw). exists d. repeat split; auto. apply C04_digest_is_spec_parse; assumption.
+Qed.
+
+(* the invariance theorems apply to it: the same document with an unreferenced garbage type added, one
+   more message key, and the type set reversed *)
+Example C04_nonvacuous_invariance :
+  forall (H : bytes -> bytes) (big_other : bytes -> option Z) (d : doc),
+    parse_doc big_other ex_td = Some d -> well_formed_b d = true ->
+    let td1 := mkTD (Some (types_of ex_td ++ [(bs "Unused", Some [None; ex_member (bs "x") (bs "Nowhere[")])]))
+                    (td_primary ex_td) (td_domain ex_td) (td_message ex_td) in
+    let td2 := mkTD (td_types ex_td) (td_primary ex_td) (td_domain ex_td)
+                    (option_map (fun m => (bs "another", GSlice [GNil]) :: m) (td_message ex_td)) in
+    let td3 := mkTD (option_map (@rev _) (td_types ex_td)) (td_primary ex_td) (td_domain ex_td) (td_message ex_td) in
+    EncodeTypedDataV4 H big_other (Some td1) = Ok (digest H d) /\
+    EncodeTypedDataV4 H big_other (Some td2) = Ok (digest H d) /\
+    EncodeTypedDataV4 H big_other (Some td3) = Ok (digest H d).
+Proof.
+  intros H big_other d Hp Hw td1 td2 td3.
+  assert (Hd : d_types d = d_types d) by reflexivity.
+  pose proof (parse_doc_represents _ _ _ Hp) as Hr.
+  unfold well_formed_b in Hw. apply andb_prop in Hw as [Hw Hdm].
+  specialize (Hr Hw). apply wf_doc_b_ok in Hw. apply types_dims_fit_b_ok in Hdm.
+  (* what the parsed document's types are *)
+  assert (Hkeys : keys (d_types d) = [bs "Mail"; bs "EIP712Domain"; bs "Person"] /\ d_primary d = bs "Mail").
+  { revert Hp. vm_compute. intros Hq; injection Hq as <-. split; reflexivity. }
+  destruct Hkeys as [Hkeys Hprim].
+  split; [|split].
+  - apply (C04_unreferenced_types_irrelevant H big_other ex_td d _ Hr Hw Hdm).
+    intros n [<-|[]]. rewrite Hkeys. split.
+    + intros [E|[E|[E|[]]]]; discriminate E.
+    + intros a _ E. destruct a; unfold atomic_name in E; cbn in E; discriminate E.
+  - apply (C04_extra_fields_irrelevant H big_other ex_td td2 d Hr Hw Hdm eq_refl eq_refl).
+    + apply SM_same.
+    + rewrite Hprim. destruct Hw as (_ & _ & Hpn & _). rewrite Hprim in Hpn. apply ProofsUtil.assoc_keys in Hpn as (def & Hdef).
+      unfold message_of, td2, ex_td. cbn [td_message option_map]. eapply same_members_add_key; [exact Hdef|].
+      revert Hdef. revert Hp. vm_compute. intros Hq; injection Hq as <-. intros Hq; injection Hq as <-.
+      intros [E|[E|[E|[E|[E|[]]]]]]; discriminate E.
+  - apply (C04_order_independent H big_other ex_td td3 d Hr Hw Hdm).
+    + repeat constructor; simpl; intuition discriminate.
+    + apply Permutation_rev.
+    + reflexivity.
+    + apply GP_refl.
+    + apply GP_refl.
+Qed.
+
+(* the ABI clause on struct Mail { Person from; Person[] to; string contents; } of contract Ex *)
+Definition ex_re (s : bytes) : option bytes :=
+  if bytes_eqb s (bs "struct Ex.Mail") then Some (bs "Mail")
+  else if bytes_eqb s (bs "struct Ex.Person") || bytes_eqb s (bs "struct Ex.Person[]") then Some (bs "Person")
+  else None.
+Definition ex_person_tc (it : bytes) : atc :=
+  TCTuple it [(bs "name", TCElem EString []); (bs "wallet", TCElem EAddress [])].
+Definition ex_tc : atc :=
+  TCTuple (bs "struct Ex.Mail")
+    [(bs "from", ex_person_tc (bs "struct Ex.Person")); (bs "to", TCDynArr (ex_person_tc (bs "struct Ex.Person[]")));
+     (bs "contents", TCElem EString [])].
+Definition ex_hand : typeset :=
+  [(bs "Person", Some [ex_member (bs "name") (bs "string"); ex_member (bs "wallet") (bs "address")]);
+   (bs "Mail", Some [ex_member (bs "from") (bs "Person"); ex_member (bs "to") (bs "Person[]");
+                      ex_member (bs "contents") (bs "string")])].
+Definition ex_msg : gval :=
+  GMap [(bs "from", GMap [(bs "name", GString (bs "Cow")); (bs "wallet", GString (bs "0xCD2a3d9F938E13CD947Ec05AbC7FE734Df8DD826"))]);
+        (bs "to", GSlice [GNil; GMap [(bs "name", GString (bs "Bob")); (bs "wallet", GString (bs "0x0b"))]]);
+        (bs "contents", GString (bs "Hello"))].
+
+Definition ex_sts : types :=
+  [(bs "Person", [ {| sm_name := bs "name"; sm_ty := Atomic AString |}; {| sm_name := bs "wallet"; sm_ty := Atomic AAddress |} ]);
+   (bs "Mail", [ {| sm_name := bs "from"; sm_ty := Struct (bs "Person") |};
+                 {| sm_name := bs "to"; sm_ty := Arr (Struct (bs "Person")) None |};
+                 {| sm_name := bs "contents"; sm_ty := Atomic AString |} ])].
+
+Example C04_nonvacuous_abi :
+  forall (H : bytes -> bytes) (big_other : bytes -> option Z),
+  exists v ts, parse_types ex_hand = Some ex_sts /\
+    ABItoTypedDataV4 ex_re ex_tc = Ok (bs "Mail", ts) /\
+    HashStruct H big_other (bs "Mail") ex_msg ts = Ok (Spec.hashStruct H ex_sts (bs "Mail") v) /\
+    HashStruct H big_other (bs "Mail") ex_msg ex_hand = Ok (Spec.hashStruct H ex_sts (bs "Mail") v).
+Proof.
+  intros H big_other.
+  assert (Es : parse_types ex_hand = Some ex_sts) by (vm_compute; reflexivity).
+  assert (Hwb : wf_types_b ex_sts = true) by (vm_compute; reflexivity).
+  assert (Hdb : types_dims_fit_b ex_sts = true) by (vm_compute; reflexivity).
+  pose proof (wf_types_b_ok _ Hwb) as Hwf. apply types_dims_fit_b_ok in Hdb.
+  assert (Hv : exists v, parse_val big_other ex_sts 10 (Struct (bs "Mail")) ex_msg = Some v /\
+                         well_typed ex_sts (Struct (bs "Mail")) v = true).
+  { eexists. split; [vm_compute; reflexivity | vm_compute; reflexivity]. }
+  destruct Hv as (v & Ev & Ht).
+  assert (Hd : describes ex_re ex_sts ex_tc (Struct (bs "Mail"))).
+  { vm_compute. split; [reflexivity|]. eexists. split; [reflexivity|].
+    repeat split; try reflexivity; eexists; (split; [reflexivity|]); repeat split; reflexivity. }
+  assert (Hreach : forall n, In n (keys ex_sts) -> reachable ex_sts (bs "Mail") n).
+  { intros n [<-|[<-|[]]].
+    - eapply reach_step with (b := bs "Mail"); [apply reach_refl | vm_compute; reflexivity | vm_compute; auto].
+    - apply reach_refl. }
+  destruct (C04_abi_typeset_equiv H big_other ex_re ex_sts ex_tc (bs "Mail") ex_hand ex_msg v Hwf Hdb Hd Hreach
+              (parse_types_repr _ _ Es Hwf) (parse_val_ok _ _ _ _ _ _ Ev) Ht) as (ts & E1 & E2 & E3).
+  exists v, ts. auto.
+Qed.
